@@ -7,7 +7,7 @@ package types
 //@ define NUM(r) = ufreal("gjson_float<tidwall_gjson_Result>", r)
 
 // The stored aggregate is the formatted maximum / minimum / mean of the extracted numbers (C17).
-//@ func Max
+//@ func Max(data)
 //@   property C17
 //@   returns s
 //@   requires len(data) > 0
@@ -21,7 +21,7 @@ package types
 //@   ensures attained:  exists j:Int :: 0 <= j && j < len(data) && maxNumber == NUM(data[j])
 //@ end
 
-//@ func Min
+//@ func Min(data)
 //@   property C17
 //@   returns s
 //@   requires len(data) > 0
@@ -39,7 +39,7 @@ package types
 //@ define FSUM(d, n) = ufreal("fsum", d, n)
 //@ axiom fsumStep(d, n)
 //@   ensures FSUM(d, 0) == 0 && FSUM(d, n + 1) == FSUM(d, n) + NUM(d[n])
-//@ func Avg
+//@ func Avg(data)
 //@   property C17
 //@   returns s
 //@   requires len(data) > 0
